@@ -19,7 +19,7 @@
    changes, all other elements and their order stay"). *)
 From Coq Require Import List ZArith Bool Arith Lia.
 From SC Require Import Base.Res Base.PyList Inst.Heap Inst.ClassTable Inst.Model Inst.Canon Inst.Abs
-  Inst.SpecHelpers Inst.ElemProofs Inst.RefineProofs Inst.CopyProofs Inst.ElemRefine Inst.ElemRefine2 Inst.ElemRefine3.
+  Inst.SpecHelpers Inst.ElemProofs Inst.RefineProofs Inst.CopyProofs Inst.ElemRefine Inst.ElemRefine2 Inst.ElemRefine3 Inst.ElemRefine4.
 Import ListNotations.
 Open Scope nat_scope.
 
@@ -306,6 +306,58 @@ Proof.
   exact (update_item_list_inplace_refines ct h0 l a c d k sp s lc xs ity Hl Hc Ha Hd Hfz Hni Hty Hdep Hfld Hlc Hxs Hflat Hsh voi v bi Hp Hs Hv Hm Hnv Hid).
 Qed.
 
+(* PROVED (C06_dict_with_item_refines_partial, C06_dict_without_item_refines_partial):
+   with_<item>(key, value) and without_<item>(key), in place, on a Dict attribute holding a
+   dict of scalars of every size and content (receiver guard as above):
+     key        any scalar (an existing key keeps its position and its first spelling --
+                True and 1 are the same key --, a new key goes last; a key of the wrong type is
+                a ValueError; deleting an absent key a KeyError)
+     value      a proper scalar, conforming or not (ValueError); no item preparer, value type
+                without spec class
+   State and error class agree with spec_helper; on an error the heap is untouched. *)
+Theorem C06_dict_with_item_refines_partial :
+  forall ct h0 l a c d k sp s lc kvs tk tv,
+  nth_error (heap s) l = Some (OInst c d) -> lookup_cls ct c = Some k -> lookup_attr k a = Some sp ->
+  NoDup (map fst d) -> c_frozen k = false -> no_inval k ->
+  a_ty sp = TDict tk tv -> ty_depth tk < FUEL -> ty_depth tv < FUEL ->
+  assoc a d = Some (VRef lc) -> nth_error (heap s) lc = Some (ODict kvs) -> forallb pair_nonref kvs = true ->
+  flat_fields (heap s) d -> (forall b w, In (b, w) d -> b <> a -> w <> VRef lc) ->
+  forall key v,
+  a_prepare_item sp = None -> spec_of_ty_strict tv = None ->
+  nonref key = true -> vscalar v = true ->
+  let h := mkh [key; v] true true VMissing false None None [] None in
+  let ah := mkah [abs0 key; abs0 v] true true AMissing false None None [] None in
+  match run_helper ct l (HWithItem a) h s with
+  | (Ok r, s') => r = VRef l /\
+                  spec_helper ct h0 (absv (heap s) (VRef l)) (SWithItem a) ah = SOk (absv (heap s') (VRef l))
+  | (Err e, s') => spec_helper ct h0 (absv (heap s) (VRef l)) (SWithItem a) ah = SErr e /\ heap s' = heap s
+  end.
+Proof.
+  intros ct h0 l a c d k sp s lc kvs tk tv Hl Hc Ha Hd Hfz Hni Hty Hdk Hdv Hfld Hlc Hkvs Hflat Hsh key v Hp Hs Hk Hv.
+  exact (with_item_dict_inplace_refines ct h0 l a c d k sp s lc kvs tk tv Hl Hc Ha Hd Hfz Hni Hty Hdk Hdv Hfld Hlc Hkvs Hflat Hsh key v Hp Hs Hk Hv).
+Qed.
+
+Theorem C06_dict_without_item_refines_partial :
+  forall ct h0 l a c d k sp s lc kvs tk tv,
+  nth_error (heap s) l = Some (OInst c d) -> lookup_cls ct c = Some k -> lookup_attr k a = Some sp ->
+  NoDup (map fst d) -> c_frozen k = false -> no_inval k ->
+  a_ty sp = TDict tk tv ->
+  assoc a d = Some (VRef lc) -> nth_error (heap s) lc = Some (ODict kvs) -> forallb pair_nonref kvs = true ->
+  flat_fields (heap s) d -> (forall b w, In (b, w) d -> b <> a -> w <> VRef lc) ->
+  forall key,
+  nonref key = true ->
+  let h := mkh [key] true true VMissing false None None [] None in
+  let ah := mkah [abs0 key] true true AMissing false None None [] None in
+  match run_helper ct l (HWithoutItem a) h s with
+  | (Ok r, s') => r = VRef l /\
+                  spec_helper ct h0 (absv (heap s) (VRef l)) (SWithoutItem a) ah = SOk (absv (heap s') (VRef l))
+  | (Err e, s') => spec_helper ct h0 (absv (heap s) (VRef l)) (SWithoutItem a) ah = SErr e /\ heap s' = heap s
+  end.
+Proof.
+  intros ct h0 l a c d k sp s lc kvs tk tv Hl Hc Ha Hd Hfz Hni Hty Hfld Hlc Hkvs Hflat Hsh key Hk.
+  exact (without_item_dict_inplace_refines ct h0 l a c d k sp s lc kvs tk tv Hl Hc Ha Hd Hfz Hni Hty Hfld Hlc Hkvs Hflat Hsh key Hk).
+Qed.
+
 (* non-vacuity: falsy elements, equal elements at several positions, negative index *)
 Example C06_examples :
   let ct := @nil cls in
@@ -336,4 +388,6 @@ Print Assumptions C06_list_with_item_refines_partial.
 Print Assumptions C06_list_without_item_refines_partial.
 Print Assumptions C06_list_transform_item_refines_partial.
 Print Assumptions C06_list_update_item_refines_partial.
+Print Assumptions C06_dict_with_item_refines_partial.
+Print Assumptions C06_dict_without_item_refines_partial.
 Print Assumptions C06_examples.
